@@ -31,6 +31,8 @@ pub trait SetApi: Clone + Default {
     fn purge_(&mut self) -> Pairs;
     fn diff_(&self, other: &Self) -> (Pairs, Pairs);
     fn merge_(&mut self, other: &Self);
+    /// `from_bytes(as_bytes(self))`
+    fn reencoded(&self) -> Option<Self>;
     /// (live entries, tombstones) as `OrSWotSet::default().diff(self)` lists them, sorted.
     fn contents(&self) -> (Pairs, Pairs) {
         Self::default().diff_(self)
@@ -44,11 +46,27 @@ fn canon(v: Vec<(u64, HLCTimestamp)>) -> Pairs {
 }
 
 impl<const N: usize> SetApi for OrSWotSet<N> {
+    // `insert` / `delete` are the public source-0 entry points: they must be the same operation as
+    // `*_with_source(0, ..)`; odd keys go through them.
     fn ins(&mut self, src: usize, k: u64, t: u64) -> bool {
-        self.insert_with_source(src, k, ts(t))
+        if src == 0 && k % 2 == 1 {
+            self.insert(k, ts(t))
+        } else {
+            self.insert_with_source(src, k, ts(t))
+        }
     }
     fn del(&mut self, src: usize, k: u64, t: u64) -> bool {
-        self.delete_with_source(src, k, ts(t))
+        if src == 0 && k % 2 == 1 {
+            self.delete(k, ts(t))
+        } else {
+            self.delete_with_source(src, k, ts(t))
+        }
+    }
+    fn reencoded(&self) -> Option<Self> {
+        let bytes = self.as_bytes().ok()?;
+        let mut aligned = rkyv::AlignedVec::with_capacity(bytes.len());
+        aligned.extend_from_slice(&bytes);
+        Self::from_bytes(&aligned).ok()
     }
     fn will(&self, k: u64, t: u64) -> bool {
         self.will_apply(k, ts(t))
@@ -123,7 +141,13 @@ pub fn interpret<S: SetApi>(toks: &[&str]) -> String {
                     .filter(|s| !s.is_empty())
                     .map(|t| if sets[cur].will(PROBE_KEY, hx(t)) { '0' } else { '1' })
                     .collect();
-                out.push(format!("E{}D{}B[{}]", show_pairs(&e), show_pairs(&d), b));
+                // a state that was serialised and decoded again is the same state
+                let again = sets[cur].reencoded();
+                let same = match &again {
+                    Some(a) => a.contents() == (e.clone(), d.clone()) && probes.split(',').filter(|s| !s.is_empty()).all(|t| a.will(PROBE_KEY, hx(t)) == sets[cur].will(PROBE_KEY, hx(t))),
+                    None => false,
+                };
+                out.push(format!("E{}D{}B[{}]{}", show_pairs(&e), show_pairs(&d), b, if same { "" } else { "!reencoded-state-differs" }));
             },
             ["S"] => {
                 let (e, d) = sets[cur].contents();
